@@ -224,11 +224,16 @@ func (bucket *Bucket) getOrCreateCollection(name sgbucket.DataStoreNameImpl, orC
 	bucket.mutex.Lock()
 	defer bucket.mutex.Unlock()
 
+	id, err := bucket._getCollectionID(name.Scope, name.Collection)
 	if collection, ok := bucket.collections[name]; ok {
-		return collection, nil
+		if (err == nil && collection.id == id) || (err != nil && err != sql.ErrNoRows) {
+			return collection, nil
+		}
+		// The collection was dropped (and maybe re-created) through another handle:
+		// this handle's cached object refers to a collection that no longer exists.
+		delete(bucket.collections, name)
 	}
 
-	id, err := bucket._getCollectionID(name.Scope, name.Collection)
 	if err == nil {
 		return bucket._initCollection(name, id), nil
 	} else if err == sql.ErrNoRows {
